@@ -83,7 +83,7 @@ inductive XOp where
   | base (op : Op)
   | setAllParamsA (k j : Nat)               -- `L[k].setAllParameters(L[j])`, repaired code
   | setParamsA (k j : Nat)                  -- `L[k].setParameters(L[j])`, repaired code
-  | at (k i : Nat)                          -- `L[k][i]`, `L[k].getParameter(i)` (4 overloads)
+  | nth (k i : Nat)                         -- `L[k][i]`, `L[k].getParameter(i)` (4 overloads)
   | param (k : Nat) (name : String)         -- `L[k].parameter(name)`, `.getParameter(name)` (4 overloads)
   | apAddNull (k : Nat)                     -- owner of `L[k]`: `addParameter_(nullptr)` (h:111-115)
   | apHas (k : Nat) (name : String)
@@ -121,7 +121,7 @@ def xstep (s : State) : XOp → State × XAns
   | .setParamsA k j =>
     let r := setParametersA s.heap (s.lists k) (s.lists j)
     (s.withHeap r.heap, ⟨.base (.ofErr r.err), none⟩)
-  | .at k i =>
+  | .nth k i =>
     match at? (s.lists k) i with
     | some x => (s, ⟨.obj x, none⟩)
     | none => (s, ⟨.ub, none⟩)
